@@ -19,6 +19,8 @@ from harness import app as app_mod
 _main = None
 _orig = None
 STMTS = []       # statements of the transaction in flight: (verb, table)
+MODES = []       # mode ('r' | 'w') of every outermost transaction opened, in order
+INSERTED = []    # (table, rowid) of every INSERT into consumers / resource_providers (row-id reuse detection)
 
 
 def install():
@@ -33,6 +35,8 @@ def install():
         outer = self.session is None
         g = greenlet.getcurrent()
         scheduled = g is not _main and getattr(g, 'sched_index', None) is not None
+        if outer:
+            MODES.append('w' if self.mode is ef._WRITER else 'r')
         # `reader.independent` inside a transaction in flight (replace_all's retry) is part of that
         # transaction's step: never yield while this request holds an open transaction
         if outer and scheduled and not getattr(g, 'in_txn', 0):
@@ -62,6 +66,18 @@ def _stmt_hook(conn, cursor, statement, parameters, context, executemany):
     STMTS.append((verb, table.strip('"(),')))
 
 
+def _after_hook(conn, cursor, statement, parameters, context, executemany):
+    if statement.startswith('INSERT INTO consumers') or statement.startswith('INSERT INTO resource_providers'):
+        INSERTED.append((statement.split()[2], cursor.lastrowid))
+
+
+def rowid_reused():
+    """SQLite hands out max(rowid)+1, so the id of a deleted most-recent row is given to the next insert;
+    MySQL/PostgreSQL sequences (and the model) never reuse ids.  Runs in which that happened are outside
+    the modelled behaviour and are skipped by the concurrency checks (counted in the evidence)."""
+    return len(set(INSERTED)) != len(INSERTED)
+
+
 class SchedApp(app_mod.App):
     """App on a file database; snapshot/restore through the SQLite backup API."""
 
@@ -71,6 +87,7 @@ class SchedApp(app_mod.App):
         super(SchedApp, self).__init__(dburl='sqlite:///%s/p.db' % self.dir, overrides=overrides)
         import sqlalchemy
         sqlalchemy.event.listen(self.engine, 'before_cursor_execute', _stmt_hook)
+        sqlalchemy.event.listen(self.engine, 'after_cursor_execute', _after_hook)
 
     def snapshot(self):
         mem = sqlite3.connect(':memory:')
